@@ -21,6 +21,20 @@ theorem childIndexAtLevel_last (P : PageId) (h : P ≠ []) : ∃ ci, childIndexA
     omega
   exact ⟨P[P.length - 1], List.getElem?_eq_getElem this⟩
 
+theorem storeElided_nodes (sp : StackPage Node) : (storeElided sp).page.nodes = sp.page.nodes := by
+  unfold storeElided; split <;> rfl
+
+theorem pushUpdated_outs (w0 w1 : Walker Node) (sp sp2 : StackPage Node) (hout : w1.outputPages = w0.outputPages)
+    (hid : sp2.pageId = sp.pageId) (hn : sp2.page.nodes = sp.page.nodes) :
+    ∀ o ∈ (pushUpdated w1 sp2).outputPages, o ∈ w0.outputPages ∨
+      ∃ pg d b, pg.nodes = sp.page.nodes ∧ o = .updated sp.pageId pg d b := by
+  intro o ho
+  unfold pushUpdated at ho
+  simp only [List.mem_append, List.mem_singleton] at ho
+  rcases ho with h | h
+  · left; rw [← hout]; exact h
+  · right; exact ⟨sp2.page, _, _, hn, by rw [h, hid]⟩
+
 theorem storeElided_fields (sp : StackPage Node) :
     (storeElided sp).pageId = sp.pageId ∧ (storeElided sp).childrenLeaves = sp.childrenLeaves ∧
     (storeElided sp).prevChildrenLeaves = sp.prevChildrenLeaves ∧ (storeElided sp).pageLeaves = sp.pageLeaves := by
@@ -51,6 +65,8 @@ theorem handleElision_spec (w : Walker Node) (sp : StackPage Node) (below : List
     (hc : ∀ x ∈ w.stack, CountersOK x) (hne : below ≠ [] → sp.pageId ≠ []) :
     ∃ w', w.handleElision H = .ok w' ∧ Same w w' ∧ w'.position = w.position ∧ w'.root = w.root ∧
       w'.childPageRoots = w.childPageRoots ∧
+      (∀ o ∈ w'.outputPages, o ∈ w.outputPages ∨
+        ∃ pg d b, pg.nodes = sp.page.nodes ∧ o = .updated sp.pageId pg d b) ∧
       ((below = [] ∧ w'.stack = []) ∨
        (∃ parent rest parent', below = parent :: rest ∧ w'.stack = parent' :: rest ∧
           parent'.pageId = parent.pageId ∧ parent'.page = parent.page ∧ CountersOK parent')) := by
@@ -63,7 +79,8 @@ theorem handleElision_spec (w : Walker Node) (sp : StackPage Node) (below : List
   | nil =>
     simp only
     rw [pushOut_ok _ _ (by exact hrec)]
-    exact ⟨_, rfl, Same.rfl' _, rfl, rfl, rfl, Or.inl ⟨trivial, rfl⟩⟩
+    exact ⟨_, rfl, Same.rfl' _, rfl, rfl, rfl,
+      pushUpdated_outs w _ sp _ rfl hid (storeElided_nodes sp), Or.inl ⟨trivial, rfl⟩⟩
   | cons parent rest =>
     simp only
     have hcp : CountersOK parent := hc parent (by rw [hst]; simp)
@@ -71,22 +88,26 @@ theorem handleElision_spec (w : Walker Node) (sp : StackPage Node) (below : List
     obtain ⟨ci, hci⟩ := childIndexAtLevel_last (storeElided sp).pageId hspne
     have hkeep : ∃ w', keepPage ({ w with stack := parent :: rest } : Walker Node) (storeElided sp) parent rest = .ok w' ∧
         Same w w' ∧ w'.position = w.position ∧ w'.root = w.root ∧ w'.childPageRoots = w.childPageRoots ∧
+        (∀ o ∈ w'.outputPages, o ∈ w.outputPages ∨
+          ∃ pg d b, pg.nodes = sp.page.nodes ∧ o = .updated sp.pageId pg d b) ∧
         ∃ parent', w'.stack = parent' :: rest ∧ parent'.pageId = parent.pageId ∧ parent'.page = parent.page ∧
           CountersOK parent' := by
       unfold keepPage
       rw [hci]
       simp only
       rw [pushOut_ok _ _ (by exact hrec)]
-      exact ⟨_, rfl, Same.rfl' _, rfl, rfl, rfl, _, rfl, rfl, rfl, Or.inl ⟨rfl, rfl⟩⟩
+      exact ⟨_, rfl, Same.rfl' _, rfl, rfl, rfl, pushUpdated_outs w _ sp _ rfl hid (storeElided_nodes sp),
+        _, rfl, rfl, rfl, Or.inl ⟨rfl, rfl⟩⟩
     by_cases hroot : parentPageId (storeElided sp).pageId = []
     · rw [if_pos hroot, pushOut_ok _ _ (by exact hrec)]
-      exact ⟨_, rfl, Same.rfl' _, rfl, rfl, rfl, Or.inr ⟨parent, rest, parent, rfl, rfl, rfl, rfl, hcp⟩⟩
+      exact ⟨_, rfl, Same.rfl' _, rfl, rfl, rfl, pushUpdated_outs w _ sp _ rfl hid (storeElided_nodes sp),
+        Or.inr ⟨parent, rest, parent, rfl, rfl, rfl, rfl, hcp⟩⟩
     · rw [if_neg hroot]
       cases hor : (storeElided sp).childrenLeaves.or (storeElided sp).prevChildrenLeaves with
       | none =>
         simp only
-        obtain ⟨w', h1, h2, h3, h4, h5, p', h6, h7, h8, h9⟩ := hkeep
-        exact ⟨w', h1, h2, h3, h4, h5, Or.inr ⟨parent, rest, p', rfl, h6, h7, h8, h9⟩⟩
+        obtain ⟨w', h1, h2, h3, h4, h5, ho, p', h6, h7, h8, h9⟩ := hkeep
+        exact ⟨w', h1, h2, h3, h4, h5, ho, Or.inr ⟨parent, rest, p', rfl, h6, h7, h8, h9⟩⟩
       | some clc =>
         simp only
         split
@@ -111,11 +132,12 @@ theorem handleElision_spec (w : Walker Node) (sp : StackPage Node) (below : List
             · exact Or.inr h
           split
           · exact ⟨_, rfl, ⟨rfl, rfl, rfl, rfl, hrec.symm⟩, rfl, rfl, rfl,
+              pushUpdated_outs w _ sp _ rfl hid (storeElided_nodes sp),
               Or.inr ⟨parent, rest, _, rfl, rfl, hp2id, hp2pg, hc3⟩⟩
-          · exact ⟨_, rfl, ⟨rfl, rfl, rfl, rfl, hrec.symm⟩, rfl, rfl, rfl,
+          · exact ⟨_, rfl, ⟨rfl, rfl, rfl, rfl, hrec.symm⟩, rfl, rfl, rfl, fun o ho => Or.inl ho,
               Or.inr ⟨parent, rest, _, rfl, rfl, hp2id, hp2pg, hc3⟩⟩
-        · obtain ⟨w', h1, h2, h3, h4, h5, p', h6, h7, h8, h9⟩ := hkeep
-          exact ⟨w', h1, h2, h3, h4, h5, Or.inr ⟨parent, rest, p', rfl, h6, h7, h8, h9⟩⟩
+        · obtain ⟨w', h1, h2, h3, h4, h5, ho, p', h6, h7, h8, h9⟩ := hkeep
+          exact ⟨w', h1, h2, h3, h4, h5, ho, Or.inr ⟨parent, rest, p', rfl, h6, h7, h8, h9⟩⟩
 
 /-! ## pages of neighbouring positions -/
 
@@ -172,7 +194,7 @@ theorem sim_up {w : Walker Node} {a : TW Node} (h : Sim H ps w a) (hd : 6 * k0 w
     have hchain := h.chain
     rw [hst] at hchain
     simp only [List.map_cons] at hchain
-    obtain ⟨w1, hw1, hsame, hpos1, hroot1, hcpr1, hstack1⟩ := handleElision_spec H w top below hst h.norecon h.counters
+    obtain ⟨w1, hw1, hsame, hpos1, hroot1, hcpr1, houts1, hstack1⟩ := handleElision_spec H w top below hst h.norecon h.counters
       (by
         intro hb
         cases below with
@@ -187,7 +209,7 @@ theorem sim_up {w : Walker Node} {a : TW Node} (h : Sim H ps w a) (hd : 6 * k0 w
       rw [htop, hxb]; exact specPage_first_layer_length x b h6
     refine ⟨hp'wf, by rw [hp'a, hposup], by rw [hroot1, hstoreup]; exact h.root, ?_, ?_, ?_, ?_, ?_,
       by show w1.reconstruction = false; rw [hsame.2.2.2.2]; exact h.norecon,
-      by show w1.childPageRoots.map _ = _; rw [hcpr1, hcprup]; exact h.cpr⟩
+      by show w1.childPageRoots.map _ = _; rw [hcpr1, hcprup]; exact h.cpr, ?_⟩
     · -- empty iff at the top layer
       rw [hsame.1, hposup, hxl]
       rcases hstack1 with ⟨hb, hs⟩ | ⟨parent, rest, parent', hb, hs, _, _, _⟩
@@ -234,6 +256,17 @@ theorem sim_up {w : Walker Node} {a : TW Node} (h : Sim H ps w a) (hd : 6 * k0 w
         rcases List.mem_cons.mp hsp with e | hsp'
         · rw [e]; exact hcnt
         · exact h.counters sp (by rw [hst, hb]; simp [hsp'])
+    · -- the outputs: the old ones, and the page just popped
+      intro o ho
+      have hlogup : a.up.log = a.log ++ [(specPage a.pos, a.store)] := by
+        unfold TW.up; rw [if_pos h1]
+      rcases houts1 o ho with hold | ⟨pg, d, b', hpgn, ho'⟩
+      · obtain ⟨P, pg, d, b', st, e1, e2, e3, e4⟩ := h.outs o hold
+        exact ⟨P, pg, d, b', st, e1, by rw [hlogup]; exact List.mem_append_left _ e2, e3, e4⟩
+      · obtain ⟨hl126, hm⟩ := h.pages top (by rw [hst]; simp)
+        refine ⟨top.pageId, pg, d, b', a.store, ho', by rw [hlogup, htop]; simp, by rw [hpgn]; exact hl126, ?_⟩
+        intro q hq hql hqp
+        rw [hpgn]; exact hm q hq hql hqp
   · -- staying in the page
     rw [hdip, if_neg h1]
     simp only
@@ -243,8 +276,9 @@ theorem sim_up {w : Walker Node} {a : TW Node} (h : Sim H ps w a) (hd : 6 * k0 w
       rw [hxb, dip_snoc] at h1; omega
     have h6k : (6 * k0 w.parentPage) % 6 = 0 := by omega
     have hposup' : a.up.pos = x := by rw [hposup, hxl]
+    have hlogup : a.up.log = a.log := by unfold TW.up; rw [if_neg h1]
     refine ⟨hp'wf, by rw [hp'a, hposup], by rw [hstoreup]; exact h.root, ?_, ?_, h.chain, ?_, h.counters,
-      h.norecon, by rw [hcprup]; exact h.cpr⟩
+      h.norecon, by rw [hcprup]; exact h.cpr, by rw [hlogup]; exact h.outs⟩
     · show w.stack = [] ↔ _
       rw [hst, hposup']
       simp only [false_iff, reduceCtorEq]
@@ -281,6 +315,7 @@ theorem sim_downBit (hfresh : ∀ P, (ps.fresh P).length = 126) {w : Walker Node
   have hp'a : p'.path = a.pos ++ [b] := by rw [hp'path, h.pos]
   have hposd : ∀ c : TWCfg Node, (a.downBit c true b).pos = a.pos ++ [b] := fun c => tw_downBit_pos c true a b
   have hcprd : ∀ c : TWCfg Node, (a.downBit c true b).cpr = a.cpr := fun c => (tw_downBit_log c true a b).2
+  have hlogd : ∀ c : TWCfg Node, (a.downBit c true b).log = a.log := fun c => (tw_downBit_log c true a b).1
   unfold Walker.downBit
   rcases hscope with ⟨hnil, hpar⟩ | hd
   · -- at the root: the root page is pushed
@@ -295,7 +330,8 @@ theorem sim_downBit (hfresh : ∀ P, (ps.fresh P).length = 126) {w : Walker Node
         havoc a.store (cfgOf H ps w.parentPage).fresh (a.pos ++ [b]) := by
       unfold TW.downBit
       rw [if_pos ⟨by rw [hnil]; rfl, rfl⟩]
-    refine ⟨hp'wf, by rw [hp'a, hposd], ?_, ?_, ?_, ?_, ?_, ?_, h.norecon, by rw [hcprd]; exact h.cpr⟩
+    refine ⟨hp'wf, by rw [hp'a, hposd], ?_, ?_, ?_, ?_, ?_, ?_, h.norecon, by rw [hcprd]; exact h.cpr,
+      by rw [hlogd]; exact h.outs⟩
     · rw [hstore]; unfold havoc; rw [if_neg (by simp)]; exact h.root
     · show (_ :: w.stack) = [] ↔ _
       rw [hposd]; simp [hpar, k0]
@@ -346,7 +382,8 @@ theorem sim_downBit (hfresh : ∀ P, (ps.fresh P).length = 126) {w : Walker Node
           havoc a.store (cfgOf H ps w.parentPage).fresh (a.pos ++ [b]) := by
         unfold TW.downBit
         rw [if_pos ⟨h6, rfl⟩]
-      refine ⟨hp'wf, by rw [hp'a, hposd], ?_, ?_, ?_, ?_, ?_, ?_, h.norecon, by rw [hcprd]; exact h.cpr⟩
+      refine ⟨hp'wf, by rw [hp'a, hposd], ?_, ?_, ?_, ?_, ?_, ?_, h.norecon, by rw [hcprd]; exact h.cpr,
+      by rw [hlogd]; exact h.outs⟩
       · rw [hstore]; unfold havoc; rw [if_neg (by simp)]; exact h.root
       · show (StackPage.new (P ++ [c]) (ps.freshPage (P ++ [c])) PageDiff.empty freshOrigin :: top :: rest) = [] ↔
           (a.downBit (cfgOf H ps w.parentPage) true b).pos.length ≤ 6 * k0 w.parentPage
@@ -404,7 +441,7 @@ theorem sim_downBit (hfresh : ∀ P, (ps.fresh P).length = 126) {w : Walker Node
         unfold TW.downBit
         rw [if_neg (by intro hh; exact h6 hh.1)]
       refine ⟨hp'wf, by rw [hp'a, hposd], by rw [hstore]; exact h.root, ?_, ?_, h.chain, ?_, h.counters, h.norecon,
-        by rw [hcprd]; exact h.cpr⟩
+        by rw [hcprd]; exact h.cpr, by rw [hlogd]; exact h.outs⟩
       · show w.stack = [] ↔ _
         rw [hst, hposd]
         simp only [List.length_append, List.length_singleton, false_iff, reduceCtorEq]
